@@ -5,7 +5,7 @@ from __future__ import annotations
 import ast
 import hashlib
 
-from ..engine.context import Context
+from ..engine.context import Context, expand
 from ..engine.loader import NotConst, walk_expr, walk_own
 from ..engine.terms import Terms, contains, show, strip_sites, subterms
 from ..spec.srp import GENERATOR, KEY_LENGTH, k_value, modulus_3072
@@ -134,19 +134,20 @@ def _k1(ctx: Context) -> None:
     # digest = h(b''.join(data)).digest()
     df = ctx.func(f"{SRP}.digest")
     rets = [x for x in walk_own(df.node) if isinstance(x, ast.Return)]
-    ok = len(rets) == 1 and ast.dump(rets[0].value) == ast.dump(ast.parse("self.h(b''.join(data)).digest()", mode="eval").body) and df.node.args.vararg is not None and df.node.args.vararg.arg == "data"
+    va = df.node.args.vararg.arg if df.node.args.vararg is not None else "data"
+    ok = len(rets) == 1 and ast.dump(expand(df.node, rets[0].value)) == ast.dump(ast.parse(f"self.h(b''.join({va})).digest()", mode="eval").body) and df.node.args.vararg is not None
     ck.check("C02.K1", ok, "digest(*data) = h(concatenation of data).digest()", f"{ctx.fkey(df)}:shape", f"Srp.digest is `{_u(rets[0].value) if rets else ''}`", df.loc())
     # pad_left / to_byte_array
     pf = ctx.func(f"{SRPM}.pad_left")
     rets = [x for x in walk_own(pf.node) if isinstance(x, ast.Return)]
-    ok = len(rets) == 1 and ast.dump(rets[0].value) == ast.dump(ast.parse(f"bytes({pf.pos_params[1]} - len({pf.pos_params[0]})) + {pf.pos_params[0]}", mode="eval").body)
+    ok = len(rets) == 1 and ast.dump(expand(pf.node, rets[0].value)) == ast.dump(ast.parse(f"bytes({pf.pos_params[1]} - len({pf.pos_params[0]})) + {pf.pos_params[0]}", mode="eval").body)
     ck.check("C02.K1", ok, "pad_left(data, n) = n - len(data) zero bytes | data", f"{ctx.fkey(pf)}:shape", f"pad_left is `{_u(rets[0].value) if rets else ''}`", pf.loc())
     tf = ctx.func(f"{SRPM}.to_byte_array")
     rets = [x for x in walk_own(tf.node) if isinstance(x, ast.Return)]
     p0 = tf.pos_params[0]
     forms = [f"bytearray({p0}.to_bytes(int(math.ceil({p0}.bit_length() / 8)), 'big'))", f"bytearray({p0}.to_bytes(({p0}.bit_length() + 7) // 8, 'big'))",
              f"{p0}.to_bytes(({p0}.bit_length() + 7) // 8, 'big')"]
-    ok = len(rets) == 1 and any(ast.dump(rets[0].value) == ast.dump(ast.parse(s, mode="eval").body) for s in forms)
+    ok = len(rets) == 1 and any(ast.dump(expand(tf.node, rets[0].value)) == ast.dump(ast.parse(s, mode="eval").body) for s in forms)
     ck.check("C02.K1", ok, "to_byte_array(n) = minimal big-endian bytes of n", f"{ctx.fkey(tf)}:shape", f"to_byte_array is `{_u(rets[0].value) if rets else ''}`", tf.loc())
 
 
